@@ -71,7 +71,7 @@ let () =
       let get k d = List.fold_left (fun acc kv -> match String.split_on_char '=' kv with [k'; v] when k' = k -> v | _ -> acc) d (split_on ',' opts) in
       let cfg = { cc_lim = Ops_parse.rsp_limits_of "D" false; cc_max_body = n_of_decstr (get "maxb" "1048576"); cc_max_chunk = n_of_decstr (get "maxk" "1048576") } in
       let port = get "port" "80" in
-      let o = { co_tls = (flav = "tls"); co_inv = (get "inv" "0" = "1"); co_chunk = (get "chunk" "0" = "1"); co_period = (get "period" "0" = "1");
+      let o = { co_tls = (flav = "tls"); co_inv = (get "inv" "0" = "1"); co_chunk = (get "chunk" "0" = "1"); co_period = (get "period" "0" = "1"); co_reclose = (get "reclose" "0" = "1");
                 co_port = List.init (String.length port) (fun i -> n_of_int (Char.code port.[i])); co_cfg = cfg } in
       let evs = List.map parse_event (List.filter (fun e -> e <> "") (String.split_on_char ';' events)) in
       let (_, log) = k_run o (cl_init o) evs in
